@@ -55,7 +55,7 @@ def load_known():
     return json.load(open(p))["findings"]
 
 
-def finish(ctx, t0, seed, stats, level_explanation, assumptions):
+def finish(ctx, t0, seed, stats, level_explanation, assumptions, write_evidence=True, extra_coverage=None):
     prop = ctx.prop
     known = [k for k in load_known() if k["property"] == prop and k["status"] == "known"]
     known_keys = {k["key"]: k for k in known}
@@ -73,7 +73,7 @@ def finish(ctx, t0, seed, stats, level_explanation, assumptions):
     for o, k in known_hit:
         lines.append("KNOWN-FINDING: property=%s %s [%s @ %s]" % (prop, k["what"], o["key"], o["where"]))
     for n, o in enumerate(viols):
-        rp = os.path.join(VERIF, "evidence", "replay", "%s-%d.json" % (prop, n))
+        rp = os.path.join(VERIF, "evidence", "replay", "%s-%d.json" % (prop, n)) if write_evidence else os.devnull
         json.dump({"property": prop, "rule": o["rule"], "rule_text": ctx.rules[o["rule"]], "key": o["key"],
                    "where": o["where"], "detail": o["detail"], "witness": o["witness"],
                    "replay_cmd": "./check %s --tier %s --explain %s" % (prop, ctx.tier, o["rule"])}, open(rp, "w"), indent=1)
@@ -119,7 +119,10 @@ def finish(ctx, t0, seed, stats, level_explanation, assumptions):
         "wall_s": round(time.time() - t0, 3),
         "violations": len(viols),
     }
-    json.dump(ev, open(os.path.join(VERIF, "evidence", "%s.json" % prop), "w"), indent=1)
+    if extra_coverage:
+        ev["coverage"].update(extra_coverage)
+    if write_evidence:
+        json.dump(ev, open(os.path.join(VERIF, "evidence", "%s.json" % prop), "w"), indent=1)
     for l in lines:
         print(l)
     print("%s: %d rule instances, %d hold, %d known finding(s), %d violation(s) [%s tier, %.1fs]" % (
